@@ -333,6 +333,11 @@ func (f *filler) fill(v reflect.Value, top bool) {
 				n = 1
 			}
 		}
+		if n == 0 && f.rng.IntN(2) == 0 {
+			// "no content" spelled as a nil slice rather than an empty one: the same value to a codec
+			v.Set(reflect.Zero(t))
+			return
+		}
 		s := reflect.MakeSlice(t, n, n)
 		for i := 0; i < n; i++ {
 			f.fill(s.Index(i), false)
